@@ -1892,6 +1892,15 @@ func (k *Kernel) handleReplayedHeader(
 		}
 	}
 
+	if s.Committing.Height > 0 && !bytes.Equal(header.PrevBlockHash, s.CommittingHeader.Hash) {
+		return tmelink.ReplayedHeaderValidationError{
+			Err: fmt.Errorf(
+				"replayed header's previous block hash (%x) does not match the committing block (%x)",
+				header.PrevBlockHash, s.CommittingHeader.Hash,
+			),
+		}
+	}
+
 	if !header.ValidatorSet.Equal(s.Voting.ValidatorSet) {
 		// The signatures below are checked against the header's validator set,
 		// and the block hash only covers that set's hashes,
